@@ -1154,6 +1154,16 @@ def c08(ctx: Ctx) -> None:
         ctx.check('C08-D4', 'on every iteration the drain precedes arming the timer', G.loc(a), w is None and bool(drains),
                   'everything already queued joins the same round', 'the timer can be armed without draining what is already queued',
                   witness=render(G, w), construct=construct_key('BUFFER.daemon', 'arm before drain'))
+    # ... and the timer starts running right away: between the round's (re-)start and arming nothing suspends - the producers
+    # found in the queue are awaited *after* the read is scheduled, so the quiet period counts from the last arrival, and
+    # wait(cancel=True) always finds a pending read to cancel
+    from ..paths import no_suspension as _nosusp
+    for a in r.arm:
+        ws = _nosusp(G, [r.round_head], [a])
+        ctx.check('C08-D4', 'no suspension point between the start of an iteration and arming the timer', G.loc(a), ws is None,
+                  'the timed read is scheduled before anything is awaited', 'the round awaits something (the drained producers) before the timed read '
+                  'is scheduled: the quiet period is counted from the end of that wait and wait(cancel=True) has nothing to cancel meanwhile',
+                  witness=render(G, ws), construct=construct_key('BUFFER.daemon', 'suspension before arming'))
     for tg in r.timed_get:
         ne = [e for e in G.succ[tg.id] if e.label != 'exc']
         w = find_path(G, [], r.callfunc, avoid=[r.round_head], start_edges=ne)
